@@ -312,8 +312,10 @@ def run(ctx: Ctx) -> None:
         collected = {c.func.value.id for c in walk_local(at) if isinstance(c, ast.Call) and isinstance(c.func, ast.Attribute) and c.func.attr == "append" and isinstance(c.func.value, ast.Name)
                      and any(isinstance(w, ast.While) and any(x is c for x in ast.walk(w)) for w in walk_local(at))}
         for lp in walk_local(at):
-            if isinstance(lp, ast.For) and isinstance(lp.iter, ast.Call) and isinstance(lp.iter.func, ast.Name) and lp.iter.func.id == "reversed" and len(lp.iter.args) == 1 \
-                    and isinstance(lp.iter.args[0], ast.Name) and lp.iter.args[0].id in collected:
+            def _rev(e_: ast.AST) -> bool:
+                return isinstance(e_, ast.Call) and isinstance(e_.func, ast.Name) and e_.func.id == "reversed" and len(e_.args) == 1 and isinstance(e_.args[0], ast.Name) and e_.args[0].id in collected
+            # (several lists filled in step, walked backwards in step: zip(reversed(a), reversed(b)))
+            if isinstance(lp, ast.For) and (_rev(lp.iter) or (isinstance(lp.iter, ast.Call) and isinstance(lp.iter.func, ast.Name) and lp.iter.func.id == "zip" and lp.iter.args and all(_rev(a_) for a_ in lp.iter.args))):
                 for st_ in ast.walk(lp):
                     if isinstance(st_, ast.Assign) and isinstance(st_.value, ast.Call) and isinstance(st_.value.func, ast.Name) and st_.value.func.id == "Array" and st_.value.args \
                             and isinstance(st_.value.args[0], ast.Name) and any(isinstance(t, ast.Name) and t.id == st_.value.args[0].id for t in st_.targets):
